@@ -519,7 +519,7 @@ fn exhaustive(args: &Args, out: &mut Out, r: &mut Rng) {
         for o1 in &ops3 {
             for o2 in &ops3 {
                 idx += 1;
-                if idx % 12 != shard % 12 || (idx / 12) % 7 != 0 { continue; }
+                if idx % 12 != shard % 12 || (idx / 12) % 2 != 0 { continue; }
                 run_history(&[Op::From(Mode::Compute, g.clone()), o1.clone(), o2.clone()], 3, "exh3x2", out, r);
                 out.count("exhaustive_3uids_2ops_strided");
             }
@@ -531,7 +531,7 @@ fn exhaustive(args: &Args, out: &mut Out, r: &mut Rng) {
         if sp.cyclic() { continue; }
         for o in &ops4 {
             idx += 1;
-            if idx % 12 != shard % 12 || (idx / 12) % 5 != 0 { continue; }
+            if idx % 12 != shard % 12 || (idx / 12) % 2 != 0 { continue; }
             run_history(&[Op::From(Mode::Compute, g.clone()), o.clone()], 4, "exh4x1", out, r);
             out.count("exhaustive_4uids_1op_strided");
         }
